@@ -236,6 +236,35 @@ Definition optZ_eqb (a b : option Z) : bool :=
                  "current_connection = decision.get('current-connection')",
                  "self.tub.slave_table[tubID] = tuple(current_connection.split())"):
         need(frag in acc, "acceptDecisionVersion1 no longer contains: " + frag)
+    # under which conditions is the decision recorded in slave_table?  (translated: slave_table_recorded_always)
+    accd = P.find_def(mod, "Negotiation.acceptDecisionVersion1")
+    par = {}
+    for n in ast.walk(accd):
+        for ch in ast.iter_child_nodes(n):
+            par[ch] = n
+    recs = [n for n in ast.walk(accd) if isinstance(n, ast.Assign) and un(n.targets[0]).startswith("self.tub.slave_table[")]
+    need(len(recs) == 1, "acceptDecisionVersion1: expected exactly one write to slave_table, found %d" % len(recs))
+    guards = []
+    n = recs[0]
+    while par.get(n) is not accd:
+        up = par[n]
+        if isinstance(up, ast.If):
+            need(n in up.body, "acceptDecisionVersion1: slave_table is written in an else-branch")
+            guards.append(un(up.test))
+        else:
+            need(False, "acceptDecisionVersion1: slave_table write is nested in %s" % type(up).__name__)
+        n = up
+    keydefs = [un(a.value) for a in ast.walk(accd) if isinstance(a, ast.Assign) and un(a.targets[0]) == "tubID"]
+    need(len(keydefs) == 1 and keydefs[0] in ("self.theirTubRef.getTubID()", "self.target.getTubID()"),
+         "acceptDecisionVersion1: slave_table key changed: %s" % keydefs)
+    if sorted(guards) == ["current_connection"] and keydefs[0] == "self.theirTubRef.getTubID()":
+        always = True
+    elif sorted(guards) == ["current_connection", "self.isClient"]:
+        always = False
+    else:
+        raise U("acceptDecisionVersion1: slave_table is written under conditions %s with key %s" % (guards, keydefs[0]))
+    out.append("Definition slave_table_recorded_always : bool := %s.   (* acceptDecisionVersion1 records current-connection whoever "
+               "dialled (false: only when this side was the client) *)" % ("true" if always else "false"))
     ic = un(P.find_def(mod, "Negotiation.initClient"))
     for frag in ("slave_record = self.tub.slave_table.get(tubID, ('none', 0))",
                  "self.negotiationOffer['last-connection'] = '%s %s' % slave_record"):
@@ -299,12 +328,46 @@ Definition optZ_eqb (a b : option Z) : bool :=
                  "for d in self.waitingForBrokers[tubref]:", "eventual.eventually(d.callback, broker)",
                  "del self.waitingForBrokers[tubref]"):
         need(frag in bas, "Tub.brokerAttached no longer contains: " + frag)
-    cfl = un(P.find_def(pm, "Tub.connectionFailed"))
-    for frag in ("del self.tubConnectors[tubref]", "if tubref in self.brokers:", "for d in waiting:", "d.errback(why)",
-                 "del self.waitingForBrokers[tubref]"):
-        need(frag in cfl, "Tub.connectionFailed no longer contains: " + frag)
-    need(0 <= cfl.find("del self.tubConnectors[tubref]") < cfl.find("if tubref in self.brokers:"),
-         "Tub.connectionFailed: order changed")
+    # Tub.connectionFailed: three effects -- forget the connector, skip when an inbound Broker exists, errback every
+    # waiter.  Application errbacks run synchronously inside d.errback and may call getReference again, so the ORDER
+    # "forget the connector" vs "errback" is behaviour: it is translated (connection_failed_forgets_first).
+    cfd = P.find_def(pm, "Tub.connectionFailed")
+    need([a.arg for a in cfd.args.args] == ["self", "tubref", "why"], "Tub.connectionFailed: parameters changed")
+    forget, errb, guard_ok = [], [], []
+    parent = {}
+    for n in ast.walk(cfd):
+        for ch in ast.iter_child_nodes(n):
+            parent[ch] = n
+    for n in ast.walk(cfd):
+        if isinstance(n, ast.Delete) and un(n.targets[0]) == "self.tubConnectors[tubref]":
+            forget.append(n)
+        if isinstance(n, ast.Call) and un(n.func) == "self.tubConnectors.pop" and n.args and un(n.args[0]) == "tubref":
+            forget.append(n)
+        if isinstance(n, ast.Call) and un(n.func) == "d.errback" and [un(a) for a in n.args] == ["why"]:
+            errb.append(n)
+    need(len(forget) == 1 and len(errb) == 1, "Tub.connectionFailed: expected one removal of the connector and one errback, found %d/%d"
+         % (len(forget), len(errb)))
+    # the errback sits in a loop over the detached waiting list
+    loop = parent[parent[errb[0]]] if isinstance(parent[errb[0]], ast.Expr) else None
+    need(isinstance(loop, ast.For) and un(loop.target) == "d" and
+         un(loop.iter) in ("waiting", "self.waitingForBrokers.pop(tubref, [])"), "Tub.connectionFailed: errback loop changed")
+    if un(loop.iter) == "waiting":
+        need("waiting = self.waitingForBrokers[tubref]" in un(cfd) and "del self.waitingForBrokers[tubref]" in un(cfd),
+             "Tub.connectionFailed: the waiting list is no longer detached before the errbacks")
+    # ... and is skipped exactly when a Broker exists
+    src_cf = un(cfd)
+    need(("if tubref in self.brokers:\n        return" in src_cf and src_cf.find("if tubref in self.brokers:") < src_cf.find("d.errback(why)"))
+         or any(isinstance(a, ast.If) and un(a.test) == "tubref not in self.brokers" for a in [parent.get(loop), parent.get(parent.get(loop))]),
+         "Tub.connectionFailed: the errbacks are no longer skipped exactly when an inbound Broker exists")
+    # the removal is unconditional (or guarded only by membership)
+    g = parent[forget[0]]
+    if isinstance(g, ast.Expr):
+        g = parent[g]
+    need(g is cfd or (isinstance(g, ast.If) and un(g.test) == "tubref in self.tubConnectors" and parent[g] is cfd),
+         "Tub.connectionFailed: the connector is no longer forgotten unconditionally")
+    first = forget[0].lineno < errb[0].lineno
+    out.append("Definition connection_failed_forgets_first : bool := %s.   (* Tub.connectionFailed: tubConnectors entry removed "
+               "before the waiters are errbacked *)" % ("true" if first else "false"))
     gb = un(P.find_def(pm, "Tub.getBrokerForTubRef"))
     for frag in ("if tubref in self.brokers:", "return defer.succeed(self.brokers[tubref])",
                  "self.waitingForBrokers[tubref].append(d)", "if tubref not in self.tubConnectors:",
